@@ -212,6 +212,12 @@ func (s *Source) Read(p []byte) (int, error) {
 	if len(p) == 0 {
 		return 0, nil
 	}
+	if f := s.fault; f != nil && f.Kind == "read_err_call" && (s.St.Reads == f.Call+1 || (f.Sticky && s.St.Reads > f.Call+1)) {
+		// the medium fails on the (Call+1)-th Read call, wherever that call reads; sticky: for good
+		s.St.FaultFired++
+		s.event(3, s.pos, 0, 4)
+		return 0, ErrInjected
+	}
 	if s.pendingErr {
 		s.St.FaultFired++
 		s.event(3, s.pos, 0, 1)
